@@ -57,4 +57,13 @@ def run(repo, tier) -> Result:
     from ..contracts import check_all
 
     check_all("C01", res, repo)
+    # pattern / movement functions wrapped as indicators (Amorph) are formulas too
+    from ..analysis_scope import analysis_universe
+    from ..framework_rules import check_regkey
+    from ..rules_analysis import check_amorph, check_function
+
+    for _name, _fi in sorted(analysis_universe(repo).items()):
+        check_function("C01", res, repo, _fi, want=("R-WRAP", "R-CAUSAL", "R-NORM"))
+    check_amorph("C01", res, repo)
+    check_regkey("C01", res, repo)
     return res
